@@ -91,6 +91,7 @@ func statusErr(s *verifc14.Sym) error {
 // Answer is called by the fake service clients. ok: the collector accepted the request; the
 // partial-success content (if any) is in the returned symbol.
 func Answer(ctx context.Context, payload []byte, check func() string) (*verifc14.Sym, error) {
+	verifc14.NoteGRPCContext(ctx)
 	s, cerr := verifc14.Attempt(ctx, payload, check)
 	if cerr != nil {
 		// what a real stub returns when the call's context has ended
